@@ -49,8 +49,16 @@ def gen(rng, tier, index):
             cfg["window"] = rng.choice([["add_sensor"], ["add_sensor", "_get_next_id", "handle_id_request"]])
             cfg["sched"] = {"policy": "pct", "seed": rng.getrandbits(32), "k": rng.choice([1, 2]), "arm": True,
                             "horizon": 8 if len(cfg["window"]) == 1 else 18, "timer_slack": 0.02}
-        ops.append([how, "255;255;3;0;3;"])
-        ops.append(["restart"])
+        if rng.random() < 0.3:
+            # ... and the application stops the gateway while that save is still running
+            ops.append(["advance", 10.2])
+            ops.append(["line", f"{rng.choice([8, 9])};255;0;0;17;2.0"])
+            ops.append(["stop_at_tick", {"line": "255;255;3;0;3;"}])
+            if rng.random() < 0.6:
+                cfg["slow_fsync"] = rng.choice([0.08, 0.2, 0.5])  # the save sits in fsync that long: no instant coincidence needed
+        else:
+            ops.append([how, "255;255;3;0;3;"])
+            ops.append(["restart"])
         ops.append(["line", "255;255;3;0;3;"])
     if cfg["persistence"] and rng.random() < 0.1:
         cfg["no_callback"] = True
